@@ -284,6 +284,7 @@ var documentedNeutral = map[string]string{
 	"C07-n9":  "`rest := a[len(b):]; rest[0]`: needs len(rest) = len(a) - len(b), which is not a difference constraint",
 	"C18-n9":  "Clone+SortFunc became slices.SortedFunc(slices.Values(…)): a library idiom the sort/search anchors do not know",
 	"C05-n14": "a nil test made redundant by an earlier successful type assertion was removed, so the traced package's URL is no longer a phi in a frozen row: equal by a value invariant, not by shape",
+	"C16-n26": "the pending counter is raised in bulk (`toProcess := len(vulns)`, `toProcess += len(newlyAdded)`) before a range loop that spawns once per element: pairing a count with the number of iterations is an arithmetic argument, not a shape the spawn/increment pairing rule knows",
 	"C19-n15": "the three validation loops became three calls of a helper with a type parameter of its own: such helpers are not inlined",
 }
 
